@@ -602,8 +602,25 @@ class SearchRun:
                     if isinstance(v0, Num) and v0.term.const_value() is not None and bound is not None and op in ('Lt',):
                         self.inner_domain.append((int(v0.term.const_value()), bound))
         saved = {k_: copy.deepcopy(self.acc_get(st, k_)) for k_ in self.acc_locals}
+        # fields of the accumulator struct that no function of the crate ever assigns (e.g. the search target stored beside
+        # the accumulators) survive the field-insensitive havoc of a struct handed down by `&mut`
+        keep = {}
+        a0 = self.acc_locals.get('best')
+        if a0 and a0['path']:
+            cell0 = self._cell(st, 'best')
+            sv0 = st.cells.get(cell0) if cell0 is not None else None
+            if isinstance(sv0, StructV):
+                for i_, nm in enumerate(sv0.names):
+                    if (i_,) not in (a0['path'], self.acc_locals['dist']['path']) and not _field_assigned(it.facts, nm):
+                        keep[i_] = copy.deepcopy(sv0.fields[i_])
         # plain havoc: the ranges of the loop symbols come from the iterator models, the accumulators from A/B below
         it.apply_havoc(st, fr, head, it.loop_places(st, fr, cfg, head))
+        if keep:
+            cell0 = self._cell(st, 'best')
+            sv0 = st.cells.get(cell0) if cell0 is not None else None
+            if isinstance(sv0, StructV):
+                for i_, v_ in keep.items():
+                    sv0.fields[i_] = v_
         qz = self.qz
         if mode == 'A':
             for k_, v in saved.items():
@@ -630,6 +647,33 @@ class SearchRun:
             st.tags['search_inner_head'] = key
             self.visits = getattr(self, 'visits', 0) + 1
             st.tags['search_visit'] = self.visits     # one analysed iteration per path reaching the inner loop head
+
+
+_ASSIGNED = {}
+
+
+def _field_assigned(facts, field_name):
+    """is a field of this name ever the target of an assignment (through any projection) in the crate?  Struct literals do not
+    count."""
+    key = id(facts)
+    if key not in _ASSIGNED:
+        names = set()
+        for p_, f in facts.fns.items():
+            if f.get('crate') != 'synth_utils':
+                continue
+            for b in f['blocks']:
+                for s_ in b['stmts']:
+                    if s_['k'] == 'assign':
+                        for pe in s_['place']['p']:
+                            if pe.get('k') == 'field' and pe.get('name'):
+                                names.add(pe['name'])
+                t_ = b['term']
+                if t_['k'] == 'call' and t_.get('dest'):
+                    for pe in t_['dest']['p']:
+                        if pe.get('k') == 'field' and pe.get('name'):
+                            names.add(pe['name'])
+        _ASSIGNED[key] = names
+    return field_name in _ASSIGNED[key]
 
 
 def best_to_volt(qz, t, ctx, form):
